@@ -64,20 +64,38 @@ def impl(case):
         if st["diff"]:
             st["live"] = {k: live[k] for k in st["diff"]}; st["fresh"] = {k: fr[k] for k in st["diff"]}
         steps.append(st)
-    # independence of tensor / expand / copy / get_substring results
+    # independence of tensor / expand / copy / get_substring results, in both directions and at the boundary arguments
+    # (expand to the same length, tensor with the empty string, the full substring)
     indep = {}
     n = len(P)
     if n:
-        before = str(P)
         Q = PauliString(pauli_str=case["other"])
-        t = P + Q; indep["tensor_text"] = str(t) == before + str(Q)
-        ex = P.expand(n + 2); indep["expand_text"] = str(ex) == before + "II"
-        cp = P.copy(); indep["copy_text"] = str(cp) == before
-        sub = P.get_substring(0, 1)
-        for name, obj in (("tensor", t), ("expand", ex), ("copy", cp), ("substring", sub)):
-            obj[0] = "Y" if before[0] != "Y" else "X"
+        E = PauliString(n=0)
+        def producers(P):
+            b = str(P)
+            return [("tensor", P + Q, b + str(Q)), ("tensor_left", Q + P, str(Q) + b), ("tensor_empty", P + E, b), ("empty_tensor", E + P, b),
+                    ("expand+2", P.expand(n + 2), b + "II"), ("expand+1", P.expand(n + 1), b + "I"), ("expand_same", P.expand(n), b),
+                    ("copy", P.copy(), b), ("substring_first", P.get_substring(0, 1), b[:1]), ("substring_full", P.get_substring(0, n), b)]
+        def edit(obj):
+            t = str(obj)
+            obj[0] = "Y" if t[0] != "Y" else "X"
             obj.inc()
-            indep[name + "_independent"] = str(P) == before and P.bits_even.to01() == "".join("1" if c in "XY" else "0" for c in before)
+        def views_ok(obj, text):
+            return str(obj) == text and obj.bits_even.to01() == "".join("1" if c in "XY" else "0" for c in text) and \
+                obj.bits_odd.to01() == "".join("1" if c in "YZ" else "0" for c in text) and obj == PauliString(pauli_str=text)
+        # (1) results have the concatenated / padded text; editing the source leaves them alone
+        objs = producers(P)
+        for name, obj, text in objs:
+            indep[name + "_text"] = views_ok(obj, text)
+        edit(P)
+        for name, obj, text in objs:
+            indep[name + "_unchanged_by_source_edit"] = views_ok(obj, text)
+        # (2) editing a result leaves the source and the other results alone
+        before = str(P)
+        objs = producers(P)
+        for k, (name, obj, text) in enumerate(objs):
+            edit(obj)
+            indep[name + "_independent"] = views_ok(P, before) and all(views_ok(o2, t2) for k2, (_, o2, t2) in enumerate(objs) if k2 > k)
         c2 = get_pauli_string(before, n=n + 1)
         indep["factory_pad"] = str(c2) == before + "I"
     return {"steps": steps, "indep": indep}
